@@ -38,6 +38,15 @@ META = {
 }
 
 SENT = 'DEFAULT-SENTINEL'
+LISTDEFAULT = 'DEFAULT-LIST-WITH-T'     # stands for default=['dflt', T, {'t': T}]: evaluated against the target in argument mode
+
+
+def _mk_default(d):
+    return ['dflt', T, {'t': T}] if d == LISTDEFAULT else d
+
+
+def _default_value(d, target):
+    return ['dflt', target, {'t': target}] if d == LISTDEFAULT else d
 OPS = {'==': operator.eq, '!=': operator.ne, '>': operator.gt, '<': operator.lt, '>=': operator.ge, '<=': operator.le}
 
 
@@ -69,14 +78,25 @@ def m_op(lhs, op, c):
 
 def gen_atom(rng, n, serial, log):
     i = rng.randrange(n)
-    kind = rng.choice(['mexpr', 'mexpr', 'mexpr', 'msub', 'mwhole', 'type', 'pattern', 'pred', 'pred', 'predobj',
-                       'partial', 'val', 'badT'])
+    kind = rng.choice(['mexpr', 'mexpr', 'mexpr', 'mexpr2', 'mexpr-reflected', 'msub', 'mwhole', 'type', 'pattern', 'pred', 'pred',
+                       'predobj', 'partial', 'val', 'badT'])
     a = {'kind': kind, 'i': i, 'ret': 'target', 'err': 'match', 'pred': None, 'm_pure': False, 'op_ok': False}
     if kind == 'mexpr':
         op = rng.choice(list(OPS))
         c = rng.choice([0, 1])
         a.update(name='M(T[%d])%s%d' % (i, op, c), truth=lambda t: OPS[op](t[i], c), spec=m_op(M(T[i]), op, c),
                  m_pure=True, op_ok=True)
+    elif kind == 'mexpr2':
+        # both operands are M(T-expression)s
+        op = rng.choice(list(OPS))
+        j = rng.randrange(n)
+        a.update(name='M(T[%d])%sM(T[%d])' % (i, op, j), truth=lambda t: OPS[op](t[i], t[j]), spec=m_op(M(T[i]), op, M(T[j])),
+                 m_pure=True, op_ok=True)
+    elif kind == 'mexpr-reflected':
+        # the constant on the left: Python evaluates the reflected comparison on the M(T-expression)
+        op = rng.choice(list(OPS))
+        c = rng.choice([0, 1])
+        a.update(name='%d%sM(T[%d])' % (c, op, i), truth=lambda t: OPS[op](c, t[i]), spec=m_op(c, op, M(T[i])), m_pure=True, op_ok=True)
     elif kind == 'msub':
         a.update(name='M(T[%d])' % i, truth=lambda t: bool(t[i]), spec=M(T[i]), m_pure=True)
     elif kind == 'mwhole':
@@ -116,7 +136,7 @@ def gen_tree(rng, n, depth, counter, log):
     if kind == 'not':
         return ('not', gen_tree(rng, n, depth - 1, counter, log))
     kids = [gen_tree(rng, n, depth - 1, counter, log) for _ in range(rng.randint(1, 3))]
-    default = SENT if rng.random() < 0.2 else None
+    default = rng.choice([SENT, LISTDEFAULT]) if rng.random() < 0.2 else None
     return (kind, kids, default)
 
 
@@ -146,7 +166,7 @@ def build(node, rng, style):
             return out
     if default is None:
         return cls(*kids)
-    return cls(*kids, default=default)
+    return cls(*kids, default=_mk_default(default))
 
 
 def denote(node, target, log):
@@ -218,7 +238,7 @@ def compare(col, desc, got, want, target, got_log, want_log, ctxname, wit):
     """got: util.Outcome; want: denotation"""
     col.count('assignments_evaluated')
     if want[0] == 'pass':
-        expect = target if want[1] == 'TARGET' else want[1]
+        expect = target if want[1] == 'TARGET' else _default_value(want[1], target)
         if not got.ok:
             return col.violation('C10/rejects-where-denotation-passes:' + ctxname,
                                  '%s on %r: denotation passes with %r, glom raised %r' % (desc, target, expect, got.exc), wit)
@@ -313,7 +333,7 @@ def switch_case(col, rng):
             fn = Fn(ptag, behaviour=lambda t: True, log=log)
             val = (fn, lambda t: t, ptag)     # a predicate as value spec, evaluated in match mode: returns the target
         cases.append((key, val))
-    default = SENT if rng.random() < 0.3 else None
+    default = rng.choice([SENT, LISTDEFAULT]) if rng.random() < 0.3 else None
     as_dict = rng.random() < 0.4
     built = [(build(k, rng, 'ctor'), v[0]) for k, v in cases]
     if as_dict:
@@ -323,7 +343,7 @@ def switch_case(col, rng):
                 as_dict = False
         except TypeError:
             as_dict = False
-    kw = {} if default is None else {'default': default}
+    kw = {} if default is None else {'default': _mk_default(default)}
     spec = Switch(dict(built) if as_dict else built, **kw)
     desc = 'Switch(%s%s)' % (', '.join('%s: %s' % (describe(k), short(v[0], 30)) for k, v in cases), ', default' if default else '')
     wit = {'switch': desc}
